@@ -205,13 +205,13 @@ def _ball(case, rec, cls):
 
 def clauses():
     return [
-        Clause("convex", _case("convex"), _convex, quick=240, thorough=6000, rule="ConvexPolyhedron", floors={"near_boundary": 0.25}),
-        Clause("mesh", _case("mesh"), _mesh, quick=200, thorough=5000, rule="Polyhedron incl. non-convex",
+        Clause("convex", _case("convex"), _convex, quick=1200, thorough=6000, rule="ConvexPolyhedron", floors={"near_boundary": 0.25}),
+        Clause("mesh", _case("mesh"), _mesh, quick=1000, thorough=5000, rule="Polyhedron incl. non-convex",
                floors={"near_boundary": 0.25, "pocket_point": 0.08, "aligned": 0.15}),
-        Clause("sphero", _case("sphero"), _sphero, quick=160, thorough=4000, rule="ConvexSpheropolyhedron",
+        Clause("sphero", _case("sphero"), _sphero, quick=800, thorough=4000, rule="ConvexSpheropolyhedron",
                floors={"rounding_band_point": 0.2, "r=0": 0.03}),
-        Clause("sphere", _case("sphere"), lambda c, r: _ball(c, r, "Sphere"), quick=300, thorough=6000, rule="Sphere", floors={}),
-        Clause("ellipsoid", _case("ellipsoid"), lambda c, r: _ball(c, r, "Ellipsoid"), quick=300, thorough=6000, rule="Ellipsoid", floors={}),
+        Clause("sphere", _case("sphere"), lambda c, r: _ball(c, r, "Sphere"), quick=1500, thorough=6000, rule="Sphere", floors={}),
+        Clause("ellipsoid", _case("ellipsoid"), lambda c, r: _ball(c, r, "Ellipsoid"), quick=1500, thorough=6000, rule="Ellipsoid", floors={}),
     ]
 
 
